@@ -51,6 +51,10 @@ pub const PATHS: &[(i32, &str)] = &[
     (1, "/a.*"),
     (2, "/a"),
     (2, "/api"),
+    // an empty value is only the *default* rule for the PREFIX kind: encodings that omit default fields
+    // must still carry an empty REGEX / EQUALS rule
+    (1, ""),
+    (2, ""),
 ];
 
 pub fn sa(s: &str) -> SocketAddress {
